@@ -895,6 +895,28 @@ def rule_i15(F):
     return r
 
 
+def rule_i16(F, FM=None):
+    """`use` declarations make items reachable at every path they name: the `library!` macro flattens a `use` tree into one path per
+    leaf, and each leaf gets the segments written before ITS group - a shared prefix stack is restored on every path (shared with
+    C13.R14; the macro crate's bodies are searched as well)."""
+    from . import c13
+    r = c13.rule_r14(F, FM)
+    r.rule = "C18.I16"
+    r.desc = "use trees (library!) and nested import lists: a shared prefix stack is restored on every path"
+    for v in r.violations:
+        v.rule = "C18.I16"
+        v.msg = v.msg.replace("(`import foo.{a.{x, y}, b}` imports `foo.a.b`)", "(`use geo::{metric::km, scale};` registers `geo::metric::scale`)")
+    return r
+
+
+def canary(C):
+    from . import c13
+    out = c13.canary(C)
+    for x in out:
+        x["rule"] = "C18.I16"
+    return out
+
+
 def rules(ctx):
     F = ctx["F"]
-    return [rule_i1(F), rule_i2(F), rule_i3(F), rule_i4(F), rule_i5(F), rule_i6(F), rule_i7(F), rule_i8(F), rule_i9(F), rule_i10(F), rule_i11(F), rule_i12(F), rule_i13(F), rule_i14(F), rule_i15(F)]
+    return [rule_i1(F), rule_i2(F), rule_i3(F), rule_i4(F), rule_i5(F), rule_i6(F), rule_i7(F), rule_i8(F), rule_i9(F), rule_i10(F), rule_i11(F), rule_i12(F), rule_i13(F), rule_i14(F), rule_i15(F), rule_i16(F, ctx.get("FM"))]
